@@ -118,6 +118,9 @@ class Real:
                 yield from wait(i, p)
             elif op == 'cond':
                 evs = [self.events[k] for k in s['evs']]
+                for sub in s.get('sub', ()):
+                    se = [self.events[k] for k in sub['evs']]
+                    evs.append(env.any_of(se) if sub['kind'] == 'any' else env.all_of(se))
                 c = env.any_of(evs) if s['kind'] == 'any' else env.all_of(evs)
                 yield from wait(i, c)
             elif op == 'interrupt':
@@ -458,12 +461,24 @@ class Model:
                 return self.block(p, i, c.result)
             elif op == 'cond':
                 members = [self.events[k] for k in s['evs']]
+                for sub in s.get('sub', ()):
+                    sm = [self.events[k] for k in sub['evs']]
+                    sc = MCond(sub['kind'], sm)
+                    sc.owner = (p.name, i, 'sub')
+                    for m in sm:
+                        m.parents.append(sc)
+                        if m.state is not None:
+                            self.late_handler(m)
+                            m.handled = True
+                    self.check_cond(sc)
+                    members.append(sc)
                 c = MCond(s['kind'], members)
                 c.owner = (p.name, i)
                 for m in members:
                     m.parents.append(c)
                     if m.state is not None:
-                        self.late_handler(m)
+                        if not isinstance(m, MCond):
+                            self.late_handler(m)
                         m.handled = True
                 self.check_cond(c)
                 return self.block(p, i, c)
@@ -555,13 +570,25 @@ class Model:
             self.trigger(c, ('ok', ('cond', c)))
 
 
-def cond_ok(got_members, c, fire_time):
-    """allowed-set rule for a condition value"""
-    got = set(got_members)
+def leaves(c):
+    out = []
     for m in c.members:
+        if isinstance(m, MCond):
+            out += leaves(m)
+        else:
+            out.append(m)
+    return out
+
+
+def cond_ok(got_members, c, fire_time):
+    """allowed-set rule for a (possibly nested) condition value: exactly the leaf events fired by then;
+    leaves firing in the very step of the condition may or may not be included"""
+    got = set(got_members)
+    lv = leaves(c)
+    for m in lv:
         if m.state is not None and m.state[0] == 'ok':
             if m.time < fire_time and str(m.eid) not in got:
                 return False
         if (m.state is None or m.time > fire_time) and str(m.eid) in got:
             return False
-    return got <= {str(m.eid) for m in c.members}
+    return got <= {str(m.eid) for m in lv}
